@@ -10,6 +10,7 @@ import Driver.LexD
 import Driver.UnwrapD
 import Driver.FrameD
 import Driver.MultiRefD
+import Driver.IsolationD
 /-! Line-protocol driver: one JSON object per stdin line, one per stdout line. -/
 open Lean Driver
 
@@ -35,6 +36,7 @@ def dispatch (j : Json) : R Json := do
   | "multiref" => multirefRun j
   | "xop" => xopRun j
   | "attachment" => attachmentRun j
+  | "isolation.run" => isolationRun j
   | _ => throw s!"unknown op {op}"
 
 def handleLine (line : String) : String :=
